@@ -510,6 +510,34 @@ func (h H) sinkPublishOrder(rule string) {
 	// snaps.index/term writers
 	h.onlyWriters(rule+" who-may-write", "raft:snapshots.index", "(*snapshotSink).done", "openSnapshots")
 	h.onlyWriters(rule+" who-may-write", "raft:snapshots.term", "(*snapshotSink).done", "openSnapshots")
+	// two sinks can be open at once (a local snapshot being persisted by the
+	// snapshot goroutine, an installed one written by the raft goroutine): the
+	// slower one must not replace a newer published snapshot. The store to
+	// snaps.index lies behind meta.index >= snaps.index, and test and store are
+	// in one critical section of snaps.mu (nothing can write the index in between)
+	fi := h.P.Info(fn)
+	nSt := 0
+	for _, st := range h.storesIn(fn, "raft:snapshots.index") {
+		nSt++
+		want := core.MkAtom("snapshotSink.meta.index", ">=", "snapshotSink.snaps.index")
+		r := fi.MustCross(st.Instr, func(a core.Atom) bool { return a.Implies(want) })
+		// the lock taken before the test is still held at the store
+		held := false
+		ls := fi.Locksets(core.LockState{})
+		if m, ok := ls[st.Instr]["snapshotSink.snaps.mu"]; ok && m == "W" {
+			held = true
+			for _, ea := range fi.AllEdgeAtoms() {
+				if ea.A.Implies(want) {
+					last := ea.E.From.Instrs[len(ea.E.From.Instrs)-1]
+					if mm, ok := ls[last]["snapshotSink.snaps.mu"]; !ok || mm != "W" {
+						held = false
+					}
+				}
+			}
+		}
+		h.C.Check(rule+" index-monotone", "(*snapshotSink).done store snaps.index", r.OK && held, h.pos(st.Instr), fmt.Sprintf("the latest-snapshot index can be replaced by an older one (a local snapshot finishing after a newer one was installed): meta.index >= snaps.index tested on every path=%v, test and store under one hold of snaps.mu=%v; %s", r.OK, held, r.Witness))
+	}
+	h.C.Floor(rule+" (stores to snaps.index in done)", nSt, 1)
 }
 
 // takeSnapshotOrder (C10.5): Persist -> Flush -> done(err).
@@ -849,6 +877,23 @@ func (h H) snapshotOrder(rule string) {
 		}
 	})
 	h.C.Check(rule+" latest-is-first", "openSnapshots", okLatest, h.fpos(os), "openSnapshots must take the first listed snapshot as the latest")
+	// …together with its term, read from that snapshot's meta file: with an
+	// empty log the term is what the node reports as its last log term
+	core.Instrs(os, func(in ssa.Instruction) {
+		st, ok := in.(*ssa.Store)
+		if !ok || !strings.HasSuffix(ofi.Sym(st.Addr).String(), ".index") {
+			return
+		}
+		r := ofi.AlwaysFollowedByE(in, func(x ssa.Instruction) bool {
+			t, ok := x.(*ssa.Store)
+			if !ok || !strings.HasSuffix(ofi.Sym(t.Addr).String(), ".term") {
+				return false
+			}
+			v := ofi.Sym(t.Val).String()
+			return strings.Contains(v, "(*snapshots).meta(") && strings.HasSuffix(v, ".term")
+		}, func(a core.Atom) bool { return a.Op == "!=" && a.R == "nil" && strings.Contains(a.L, "(*snapshots).meta(") })
+		h.C.Check(rule+" term-with-index", "openSnapshots store index", r.OK, h.pos(in), "openSnapshots adopts the latest snapshot's index without its term (the last log term after a restart with an empty log): "+r.Witness)
+	})
 }
 
 func isUnsignedInt(t types.Type) bool {
